@@ -22,9 +22,17 @@ import (
 
 // onOp is one client operation of a once scenario (C16): "resolve" (Once.Resolve with its own
 // context; c: the scenario may cancel it) or "call" (the memoized function).
+//
+// tc (resolve; generated scenarios only, absent in the scenario files shared with the X spec): right
+// after this Resolve has returned the SAME client goroutine cancels the context of the Resolve that
+// client tc has in flight ("first result wins, cancel the others"). When both were woken by the same
+// close of the done channel, the other caller runs only afterwards: it comes out of its select through
+// the result channel with its context already cancelled. No controller move can order the two that way
+// (a combined "grant & cancel" step cancels before the granted goroutine runs).
 type onOp struct {
 	Op string `json:"op"`
 	C  bool   `json:"c"`
+	Tc int    `json:"tc,omitempty"`
 }
 
 // onScenario: kind once|memo; the wrapped function is harness-owned: it parks and the
@@ -115,6 +123,17 @@ func genOnce(x *sched.Exec) onScenario {
 			prog = append(prog, onOp{Op: "resolve", C: r.Intn(2) == 0})
 		}
 		sc.Clients = append(sc.Clients, prog)
+	}
+	// a third of the scenarios: some Resolve calls are followed at once (same goroutine) by the
+	// cancellation of another client's Resolve (see onOp)
+	if r.Intn(3) == 0 {
+		for i, prog := range sc.Clients {
+			for j := range prog {
+				if t := 1 + r.Intn(n); t != i+1 && r.Intn(2) == 0 {
+					prog[j].Tc = t
+				}
+			}
+		}
 	}
 	return sc
 }
@@ -218,6 +237,13 @@ func (d *onDriver) opFunc(c *onClient, pi int, op onOp) sched.Op {
 		}()
 		if id == 0 {
 			return
+		}
+		if op.Op == "resolve" && op.Tc > 0 && op.Tc <= len(d.cl) {
+			if t := d.cl[op.Tc-1]; t.inflight != 0 && t.op.Op == "resolve" && !t.canc {
+				t.canc = true
+				x.Log(trace.E{"ev": "cancel", "id": t.inflight, "xid": t.xid})
+				t.cancel()
+			}
 		}
 		c.inflight = 0
 		res := "ok"
